@@ -29,6 +29,9 @@ type c05result struct {
 
 var errInjected = errors.New("injected callback failure")
 
+// callback failures that wrap context errors of some OTHER context
+var errWrapped = []error{fmt.Errorf("%w: downstream: %w", errInjected, context.Canceled), fmt.Errorf("%w: downstream: %w", errInjected, context.DeadlineExceeded), errors.Join(context.DeadlineExceeded, errInjected)}
+
 // flipCtx is a context whose Err() starts failing at its n-th poll.
 type flipCtx struct {
 	context.Context
@@ -314,14 +317,19 @@ func C05(c *mon.Ctx) {
 			ks = []int{1, 2, total / 2, total - 1, total, 1 + r.Intn(total)}
 		}
 		for _, k := range ks {
-			for mode := 0; mode < 2; mode++ {
+			for mode := 0; mode < 3; mode++ {
 				calls := 0
 				cctx, cancel := context.WithCancel(context.Background())
 				err := batch.Authorize(cctx, ps, ents, breq, func(res batch.Result) error {
 					calls++
 					if calls == k {
-						if mode == 0 {
+						switch mode {
+						case 0:
 							return errInjected
+						case 2:
+							// the callback's own failure happens to BE a context error of some other
+							// context (a downstream call timed out) while the batch context is alive
+							return errWrapped[k%len(errWrapped)]
 						}
 						cancel()
 					}
@@ -329,7 +337,19 @@ func C05(c *mon.Ctx) {
 				})
 				cancel()
 				w.Evals(1)
-				w.Count([]string{"fault: callback error at k", "fault: cancel inside callback k"}[mode])
+				w.Count([]string{"fault: callback error at k", "fault: cancel inside callback k", "fault: callback error wrapping a foreign context error at k"}[mode])
+				if mode == 2 {
+					wit3 := map[string]any{"policies": ptexts, "template": tdesc, "k": k, "callbacks": calls, "returned": fmt.Sprint(err)}
+					if calls != k {
+						w.Violation("callbacks continue after a callback error", fmt.Sprintf("fault at callback %d of %d but %d callbacks were made", k, total, calls), wit3)
+						return
+					}
+					if !errors.Is(err, errInjected) {
+						w.Violation("callback error not returned (error wraps a foreign context error)", fmt.Sprintf("callback %d returned %v (batch context alive), batch.Authorize returned %v", k, errWrapped[k%len(errWrapped)], err), wit3)
+						return
+					}
+					continue
+				}
 				wit2 := map[string]any{"policies": ptexts, "template": tdesc, "k": k, "callbacks": calls, "returned": fmt.Sprint(err)}
 				if calls != k {
 					w.Violation([]string{"callbacks continue after a callback error", "callbacks continue after cancellation inside a callback"}[mode], fmt.Sprintf("fault at callback %d of %d but %d callbacks were made", k, total, calls), wit2)
